@@ -6,7 +6,12 @@ REPO = os.environ.get('VERIF_REPO', '/repo')
 BUILD = os.path.join(VERIF, 'build')
 NCPU = os.cpu_count() or 4
 CXX = 'clang++'
-CXXFLAGS = ['-std=c++14', '-O0', '-g1', '-fsanitize=address,undefined', '-fno-sanitize-recover=all',
+# VERIF_COVERAGE=1 (tools/coverage.py only): the same harness built for llvm-cov instead of the sanitizers, to audit
+# which lines of /repo/include the generated cases reach.  Never set by a registered check.
+COVERAGE = bool(os.environ.get('VERIF_COVERAGE'))
+SANFLAGS = ['-fprofile-instr-generate', '-fcoverage-mapping'] if COVERAGE else ['-fsanitize=address,undefined', '-fno-sanitize-recover=all']
+TSANFLAGS = ['-fprofile-instr-generate', '-fcoverage-mapping'] if COVERAGE else ['-fsanitize=thread']
+CXXFLAGS = ['-std=c++14', '-O0', '-g1'] + SANFLAGS + [
             '-fno-omit-frame-pointer', '-I' + os.path.join(REPO, 'include'), '-I' + os.path.join(VERIF, 'harness'),
             '-include', 'new', '-include', 'array', '-include', 'limits', '-include', 'memory',
             '-Wno-unused-value', '-DGOOGLE_LIBNOP_VERIF=1']
